@@ -4,6 +4,7 @@ import RQ.Driver.PathEngine
 import RQ.Driver.ParseEngine
 import RQ.Driver.SeriesEngine
 import RQ.Driver.PushEngine
+import RQ.Driver.DiffEngine
 open RQ
 
 def step (line : String) : String :=
@@ -15,6 +16,7 @@ def step (line : String) : String :=
   | some "U" => ParseEngine.step fields
   | some "S" => SeriesEngine.step fields
   | some "W" => PushEngine.step fields
+  | some "C" => DiffEngine.step fields
   | some "F" => PushEngine.stepF fields
   | some "T" => ApplyEngine.stepT fields
   | _ => "bad-op"
